@@ -112,6 +112,8 @@ struct Parser<'a> {
     /// The innermost enclosing unit function is `rad(...)`: a sexagesimal angle in it is
     /// converted here, since `rad` itself converts nothing.
     in_rad_fn: bool,
+    /// Number of `deg(...)` / `rad(...)` results produced so far.
+    unit_fn_results: u32,
 }
 
 impl<'a> Parser<'a> {
@@ -126,6 +128,7 @@ impl<'a> Parser<'a> {
             tag,
             sexagesimal_is_time: true,
             in_rad_fn: false,
+            unit_fn_results: 0,
         }
     }
     #[inline]
@@ -448,6 +451,7 @@ impl<'a> Parser<'a> {
             let is_deg = ident.eq_ignore_ascii_case("deg");
             let old_mode = self.sexagesimal_is_time;
             let old_in_rad = self.in_rad_fn;
+            let results_before = self.unit_fn_results;
             self.sexagesimal_is_time = false;
             self.in_rad_fn = !is_deg;
             self.enter()?;
@@ -460,6 +464,14 @@ impl<'a> Parser<'a> {
             if self.bump() != Some(b')') {
                 return Err(self.err("expected ')' after function argument"));
             }
+            // The result of a unit function is in radians. `deg` around it would convert a
+            // second time (`deg(deg(x))`) or take radians for degrees (`deg(rad(x))`).
+            if is_deg && self.unit_fn_results != results_before {
+                return Err(self.err(
+                    "deg(...) applied to a value that already went through deg(...) or rad(...)",
+                ));
+            }
+            self.unit_fn_results = self.unit_fn_results.saturating_add(1);
 
             let used_unit = true;
             if is_deg {
